@@ -7,6 +7,7 @@ func init() {
 		func(r *Report) {
 			ruleReducer(r)
 			ruleValueOpaque(r)
+			ruleHeapShape(r)
 			ruleKeyNil(r)
 			ruleCtxAge(r, []string{"simpledb.executeCompaction"})
 			ruleNames(r, []string{"sorted-compaction"})
@@ -63,6 +64,7 @@ func init() {
 			ruleLogBeforeApply(r)
 			ruleGeneration(r)
 			ruleEmptyIsAbsent(r)
+			ruleHeapShape(r)
 			ruleRWMemstore(r)
 			ruleReaderRebuilt(r)
 			ruleCloseFlushes(r)
